@@ -1,6 +1,6 @@
 """C01 — commit is atomic and durable across a crash: the write-ahead / durability protocol,
 decided on every path of the functions that issue storage operations."""
-from ..model import Ev, must_pass, must_precede, ok_continuation_events, witness_path, path_spans, provenance
+from ..model import Ev, must_pass, must_precede, ok_continuation_events, witness_path, path_spans, provenance, trace_back, op_local
 from ..rules import (must_closure, rule_between, rule_precede, rule_must_pass, rule_result_checked, rule_who_may_call, get_body,
                      family, calls_to, site, short, arg_provenance, fmt_leaves)
 from .. import linear, durable
@@ -212,6 +212,28 @@ def r4(rep, prog):
                  "Segment::with_delete_meta", "terminate() of the .del file", "SegmentEntry::set_meta")
     rule_precede(rep, prog, R, I + "index_writer::advance_deletes", {"tantivy::fastfield::alive_bitset::write_alive_bitset"},
                  family(prog, TW + "terminate"), "write_alive_bitset", "terminate()")
+    # delete files are immutable and named by opstamp: the new .del file is opened on the segment
+    # *after* with_delete_meta(.., target_opstamp) gave it a fresh name, and the opstamp is the parameter
+    adv = I + "index_writer::advance_deletes"
+    ab = prog.body(adv)
+    if ab is not None:
+        WDM = {"tantivy::index::segment::Segment::with_delete_meta"}
+        OW = {"tantivy::index::segment::Segment::open_write"}
+        from ..rules import option_root
+        for b, t in calls_to(prog, ab, WDM):
+            names = ab.var_names()
+            p = [l for l in range(1, ab.argc + 1) if names.get(l) == "target_opstamp"]
+            rep.check(bool(p) and option_root(ab, t["args"][2]) == ("param", p[0]), R, "advance_deletes names the new delete file by its target opstamp", "with_delete_meta(.., target_opstamp)",
+                      "the delete file is not named by advance_deletes' target_opstamp: an existing (referenced, immutable) .del file could be overwritten", site=site(ab, b))
+        rule_precede(rep, prog, R, adv, WDM, OW, "Segment::with_delete_meta", "open_write(Delete)", a_ok=False)
+        for b, t in calls_to(prog, ab, OW):
+            tr = trace_back(ab, op_local(t["args"][1])) if op_local(t["args"][1]) is not None else []
+            rep.check(bool(tr) and tr[-1][0] == "agg" and str(tr[-1][1]).endswith("SegmentComponent::Delete"), R, "advance_deletes writes only the Delete component", "open_write(SegmentComponent::Delete)",
+                      "advance_deletes opens another component than Delete for writing", site=site(ab, b))
+    rp = prog.body("tantivy::index::index_meta::SegmentMeta::relative_path")
+    if rp is not None:
+        okd = any(t.get("f", "").endswith("SegmentMeta::delete_opstamp") for _, t in rp.calls())
+        rep.check(okd, R, "the Delete component's file name contains the delete opstamp", "relative_path calls delete_opstamp()", "SegmentMeta::relative_path no longer puts the delete opstamp into the .del file name", site=rp.span)
     # (d) the temp store is complete before it is read back
     rule_precede(rep, prog, R, I + "segment_writer::remap_and_write", {"tantivy::store::writer::StoreWriter::close"},
                  {"tantivy::store::reader::StoreReader::open"}, "old_store_writer.close()", "StoreReader::open(TempStore)")
